@@ -348,7 +348,7 @@ func (cur *FieldMask) GetPath(desc *thrift_reflection.TypeDescriptor, path strin
 				return nil, false
 			}
 			// println("struct: ", st.Name)
-			if cur.typ != FtStruct {
+			if !cur.isAll && cur.typ != FtStruct {
 				return nil, false
 			}
 
@@ -414,7 +414,7 @@ func (cur *FieldMask) GetPath(desc *thrift_reflection.TypeDescriptor, path strin
 				return nil, false
 			}
 
-			if cur.typ != FtList {
+			if !cur.isAll && cur.typ != FtList {
 				return nil, false
 			}
 
@@ -470,7 +470,7 @@ func (cur *FieldMask) GetPath(desc *thrift_reflection.TypeDescriptor, path strin
 			}
 
 			// println("cur.typ::", cur.typ, "cur::", cur.String(curDesc))
-			if cur.typ != FtIntMap && cur.typ != FtStrMap && cur.typ != FtScalar {
+			if !cur.isAll && cur.typ != FtIntMap && cur.typ != FtStrMap && cur.typ != FtScalar {
 				return nil, false
 			}
 			// spew.Dump("cur ", cur)
